@@ -326,7 +326,10 @@ def h_epilogue(H):
         it.session.contracts[neuropixel.NP2Converter._closefiles] = lambda it_, a, k: calls.append("close")
         it.session.contracts[neuropixel.NP2Converter._writemetadata_ap] = lambda it_, a, k: calls.append("meta_ap")
         it.session.contracts[neuropixel.NP2Converter._writemetadata_lf] = lambda it_, a, k: calls.append("meta_lf")
-        conv.attrs["sr"] = SObj(spikeglx.Reader, _raw=None, file_bin=ap)
+        nproc, nrec = z3.Ints("nsamples_processed ns_recording")
+        it.ctx.assume(z3.And(nproc >= 1, nproc <= nrec))
+        conv.attrs["nsamples"] = SV(nproc)
+        conv.attrs["sr"] = SObj(spikeglx.Reader, _raw=None, file_bin=ap, ns=SV(nrec))
         fn = neuropixel.NP2Converter._process_NP24
         node, filename, before, loop, after = N.loop_parts(fn)
         it.session.note_function(fn)
@@ -346,7 +349,9 @@ def h_epilogue(H):
         unl = [op for op in fs_.log if op[0] == "unlink" and op[1] == ap.key]
         it.ctx.oblige("delete.only_after_verified", z3.Implies(z3.BoolVal(bool(unl)), z3.And(pc, dl, z3.BoolVal("check" in calls and outcome != "raise"))), "post",
                       "the original is unlinked only with post_check and delete_original set and after check_NP24 returned normally")
-        it.ctx.oblige("delete.when_requested_and_verified", z3.Implies(z3.And(pc, dl, z3.BoolVal(outcome != "raise")), z3.BoolVal(bool(unl))), "post")
+        it.ctx.oblige("delete.only_if_every_sample_was_split_and_verified", z3.Implies(z3.BoolVal(bool(unl)), nproc == nrec), "post",
+                      "the split and its verification run over the first nsamples samples (init_params option): the original goes only when that is the whole recording")
+        it.ctx.oblige("delete.when_requested_and_verified", z3.Implies(z3.And(pc, dl, nproc == nrec, z3.BoolVal(outcome != "raise")), z3.BoolVal(bool(unl))), "post")
         it.ctx.oblige("delete.never_without_check", z3.Implies(z3.Not(pc), z3.BoolVal(not unl)), "post", "without verification the original stays, whatever delete_original says")
         if "check" in calls and "compress" in calls:
             it.ctx.oblige("order.check_before_compress", z3.BoolVal(calls.index("check") < calls.index("compress")), "post")
@@ -403,10 +408,15 @@ def h_epilogue(H):
         fs_, conv, ap, napch = mk_conv(it)
         cc = z3.Bool("check_completed")
         conv.attrs["check_completed"] = SV(cc)
-        conv.attrs["sr"] = SObj(spikeglx.Reader, _raw=None, file_bin=ap)
+        nproc, nrec = z3.Ints("nsamples_processed ns_recording")
+        it.ctx.assume(z3.And(nproc >= 1, nproc <= nrec))
+        conv.attrs["nsamples"] = SV(nproc)
+        conv.attrs["sr"] = SObj(spikeglx.Reader, _raw=None, file_bin=ap, ns=SV(nrec))
+        H.input(nsamples_processed=nproc, ns_recording=nrec)
         run_function(it, neuropixel.NP2Converter.delete_NP24, [conv])
         unl = [op for op in fs_.log if op[0] == "unlink"]
-        it.ctx.oblige("delete_NP24.guard", z3.BoolVal(bool(unl)) == z3.And(cc, term(conv.delete_original)), "post", "deletion guarded by check_completed and delete_original")
+        it.ctx.oblige("delete_NP24.guard", z3.BoolVal(bool(unl)) == z3.And(cc, term(conv.delete_original), nproc == nrec), "post",
+                      "deletion guarded by check_completed and delete_original, and by the whole recording having been processed")
         it.ctx.oblige("delete_NP24.only_the_original", z3.BoolVal(all(op[1] == ap.key for op in unl)), "post")
     S3.explore(body3)
 
@@ -636,7 +646,7 @@ def native_failed_check_then_delete(*_a):
 
 @bounded(PROPERTY, "native_histories", bound="real files (3000 samples, window 1200): NP2.4 x option triples {post_check, compress, delete_original} sampled (quick 4, thorough all 8) x histories "
          "[run], [run, run], [run, run(overwrite)], [fresh run(overwrite)], [run interrupted during compression, run(overwrite)], [run with a corrupted shank file + delete_original], [failed verification, then delete_NP24() on the same object]; NP2.1 x {run, run run, run(overwrite)}; "
-         "NP1 and NP Ultra (refused, tree unchanged); one object finding earlier output then forced; the converter pointed at an already split shank (both overwrite values); a 3007-sample recording with post_check + delete_original",
+         "NP1 and NP Ultra (refused, tree unchanged); the first 2000 of 3000 samples split with post_check + delete_original; one object finding earlier output then forced; the converter pointed at an already split shank (both overwrite values); a 3007-sample recording with post_check + delete_original",
          clause="original recoverable after every history; repeated run is a no-op reporting 0; forced re-run ends with a complete set")
 def b_native(B):
     import itertools
@@ -725,6 +735,21 @@ def b_native(B):
         B.case("same_object_forced_rerun", bool(okf) and open(ap, "rb").read() == orig, detail=det)
     finally:
         shutil.rmtree(d, ignore_errors=True)
+    # only the first nsamples samples processed (init_params option) with post_check + delete_original: the rest of the recording exists nowhere else, the original stays
+    for comp in (False, True):
+        d, ap, orig = _mk("NP2.4")
+        try:
+            conv = neuropixel.NP2Converter(ap, post_check=True, compress=comp, delete_original=True)
+            conv.init_params(nwindow=1200, nsamples=2000)
+            r = conv.process()
+            try:
+                conv.sr.close()
+            except Exception:
+                pass
+            alive = os.path.exists(ap) and open(ap, "rb").read() == orig
+            B.case(("partial_split_keeps_the_original", comp), r == 1 and alive, detail={"returned": r, "original_intact": alive}, inputs={"kind": "partial_split_delete", "compress": comp})
+        finally:
+            shutil.rmtree(d, ignore_errors=True)
     # the usual idiom on one object: a run that finds earlier output (returns 0), then the same object forced
     for kind in ("NP2.4", "NP2.1"):
         d, ap, orig = _mk(kind)
